@@ -1,1 +1,2 @@
 pub mod headermap;
+pub mod payload;
